@@ -700,3 +700,203 @@ Lemma finding_new_long_server_name :
   validate_server_name sn = Ok tt /\
   validate_user_id (id_new 64 (pad 97 12) sn) = Err E_MaximumLengthExceeded.
 Proof. vm_compute. split; reflexivity. Qed.
+
+(** * Constructors, in the form of Properties.v *)
+Theorem constructors_all :
+  (forall id sn built, parse_with_server_name id sn = Ok built -> validate_user_id built = Ok tt) /\
+  (forall id sn, valid_utf8 id = true -> valid_utf8 sn = true ->
+     forall p, parse_with_server_name id sn <> Panic p) /\
+  (forall id sn, valid_utf8 id = true -> validate_server_name sn = Ok tt ->
+     head_is 64 id = false -> ~ In 58 id -> ~ In 0 id -> len (64 :: id ++ 58 :: sn) <= 255 ->
+     parse_with_server_name id sn = Ok (64 :: id ++ 58 :: sn)) /\
+  (forall k alg name, valid_utf8 alg = true -> valid_utf8 name = true ->
+     alg <> [] -> ~ In 58 alg -> validate_key_name k name = Ok tt ->
+     validate_key_id k (key_from_parts alg name) = Ok (len alg)) /\
+  (forall lp sn, Forall (fun c => is_alnum c = true) lp -> validate_server_name sn = Ok tt ->
+     len (id_new 64 lp sn) <= 255 -> validate_user_id (id_new 64 lp sn) = Ok tt) /\
+  (forall lp sn, Forall (fun c => is_alnum c = true) lp -> validate_server_name sn = Ok tt ->
+     len (id_new 36 lp sn) <= 255 -> validate_event_id (id_new 36 lp sn) = Ok tt) /\
+  (forall lp sn, Forall (fun c => is_alnum c = true) lp -> validate_server_name sn = Ok tt ->
+     len (id_new 33 lp sn) <= 255 -> validate_room_id (id_new 33 lp sn) = Ok tt).
+Proof.
+  assert (Hsn : forall sn, validate_server_name sn = Ok tt -> RumaSN sn /\ Utf8 sn /\ ~ In 0 sn).
+  { intros sn H. pose proof (sn_sound sn H) as Hs. split; [now apply sn_ok_ruma|].
+    split; [apply ascii_Utf8; now apply (ServerName_ascii false)|apply (ServerName_no false); auto]. }
+  repeat split.
+  - apply pwsn_accepted.
+  - intros id sn Hi Hs. apply pwsn_total; now apply valid_utf8_Utf8.
+  - intros id sn Hi Hs Hh H58 H0 Hl. destruct (Hsn sn Hs) as (Hr & Hu & _).
+    apply pwsn_complete; auto. now apply valid_utf8_Utf8.
+  - intros k alg name Ha Hn Hne H58 Hk. apply from_parts_accepted; auto; now apply valid_utf8_Utf8.
+  - intros lp sn Hlp Hs Hl. destruct (Hsn sn Hs) as (Hr & Hu & _). now apply new_user_accepted.
+  - intros lp sn Hlp Hs Hl. destruct (Hsn sn Hs) as (Hr & Hu & H0). now apply new_event_accepted.
+  - intros lp sn Hlp Hs Hl. destruct (Hsn sn Hs) as (_ & _ & H0). apply new_room_accepted; auto.
+    intros Hin. rewrite Forall_forall in Hlp. specialize (Hlp _ Hin). discriminate.
+Qed.
+
+(** * The bundled statements of Properties.v *)
+Theorem accept_sound_all :
+  forall s,
+  (validate_user_id s = Ok tt -> UserId true s) /\
+  (validate_room_alias_id s = Ok tt -> RoomAliasId true s) /\
+  (validate_room_id s = Ok tt -> RoomId s) /\
+  (validate_event_id s = Ok tt -> EventId true s) /\
+  (validate_room_or_alias_id s = Ok tt -> RoomOrAliasId true s) /\
+  (validate_user_id_strict s = Ok tt -> UserIdStrict true s) /\
+  (validate_server_name s = Ok tt -> ServerName false s /\ (~ DnsLonger255 s -> ServerName true s)) /\
+  (forall k i, validate_key_id k s = Ok i -> KeyId (kk k) s) /\
+  (forall i, validate_mxc s = Ok i ->
+     MxcUri false s /\
+     ((forall sn m, s = mxc_prefix ++ sn ++ 47 :: m -> ~ DnsLonger255 sn) -> MxcUri true s)) /\
+  (validate_room_version_id s = Ok tt -> room_version_b s = true) /\
+  (validate_client_secret s = Ok tt -> client_secret_b s = true) /\
+  (validate_base64_public_key s = Ok tt -> key_name_b Base64Key s = true) /\
+  (validate_signing_key_version s = Ok tt -> key_name_b SigningVersion s = true).
+Proof.
+  intros s. repeat split.
+  - apply user_id_sound. - apply room_alias_sound. - apply room_id_iff. - apply event_id_sound.
+  - apply room_or_alias_sound. - apply strict_sound. - now apply sn_sound. - now apply sn_sound_bounded.
+  - intros k i. apply key_id_sound. - eapply mxc_sound; eassumption. - eapply mxc_sound_bounded; eassumption.
+  - apply room_version_iff. - apply client_secret_iff. - apply base64_key_iff. - apply signing_version_iff.
+Qed.
+
+Theorem accept_complete_all :
+  forall b s, valid_utf8 s = true -> ~ PortAbove65535 s ->
+  (UserId b s -> validate_user_id s = Ok tt) /\
+  (RoomAliasId b s -> validate_room_alias_id s = Ok tt) /\
+  (RoomId s -> validate_room_id s = Ok tt) /\
+  (EventId b s -> validate_event_id s = Ok tt) /\
+  (RoomOrAliasId b s -> validate_room_or_alias_id s = Ok tt) /\
+  (UserIdStrict b s -> validate_user_id_strict s = Ok tt) /\
+  (ServerName b s -> validate_server_name s = Ok tt) /\
+  (forall k, KeyId (kk k) s -> exists i, validate_key_id k s = Ok i) /\
+  (room_version_b s = true -> validate_room_version_id s = Ok tt) /\
+  (client_secret_b s = true -> validate_client_secret s = Ok tt) /\
+  (key_name_b Base64Key s = true -> validate_base64_public_key s = Ok tt) /\
+  (key_name_b SigningVersion s = true -> validate_signing_key_version s = Ok tt).
+Proof.
+  intros b s Hu Hn. repeat split.
+  - intros H. now apply (user_id_complete b). - intros H. now apply (room_alias_complete b).
+  - apply room_id_iff. - intros H. now apply (event_id_complete b).
+  - intros H. now apply (room_or_alias_complete b). - intros H. now apply (strict_complete b).
+  - intros H. now apply (sn_complete b). - intros k H. now apply key_id_complete.
+  - apply room_version_iff. - apply client_secret_iff. - apply base64_key_iff. - apply signing_version_iff.
+Qed.
+
+Theorem accessors_recompose_all :
+  forall s, valid_utf8 s = true ->
+  (* user ids ([localpart], [server_name], the historical/strict classification) *)
+  (validate_user_id s = Ok tt ->
+     exists l sn, id_localpart s = Ok l /\ id_server_name s = Ok sn /\ s = 64 :: l ++ 58 :: sn /\
+                  validate_server_name sn = Ok tt /\
+                  user_fully_conforming s = localpart_fully_conforming l /\
+                  localpart_fully_conforming l =
+                    match classify_local l with
+                    | 0 => Ok true | 1 => Ok false | 2 => Err E_InvalidCharacters | _ => Err E_Empty
+                    end) /\
+  (* room aliases ([alias], [server_name]) *)
+  (validate_room_alias_id s = Ok tt ->
+     exists l sn, id_localpart s = Ok l /\ id_server_name s = Ok sn /\ s = 35 :: l ++ 58 :: sn /\
+                  validate_server_name sn = Ok tt) /\
+  (* event ids ([localpart], [server_name]) *)
+  (validate_event_id s = Ok tt ->
+     exists l, event_localpart s = Ok l /\
+       ((event_server_name s = Ok None /\ s = 36 :: l) \/
+        (exists sn, event_server_name s = Ok (Some sn) /\ s = 36 :: l ++ 58 :: sn /\
+                    validate_server_name sn = Ok tt))) /\
+  (* room ids and room-or-alias ids ([server_name]): the part after the first colon, when valid *)
+  (roa_server_name s = Ok None \/
+   exists l sn, roa_server_name s = Ok (Some sn) /\ s = l ++ 58 :: sn /\ ~ In 58 l /\
+                validate_server_name sn = Ok tt) /\
+  (* server names ([host], [port], [is_ip_literal]) *)
+  (validate_server_name s = Ok tt ->
+     exists h po, sn_host s = Ok h /\ sn_port s = Ok po /\ sn_is_ip_literal s = Ok (ip_literal_b h) /\
+                  server_parts_ok s h po /\ Hostname false h) /\
+  (* key ids ([algorithm], [key_name]) *)
+  (forall k i, validate_key_id k s = Ok i ->
+     exists a n, key_algorithm s = Ok a /\ key_name k s = Ok n /\ s = a ++ 58 :: n /\ i = len a) /\
+  (* MXC URIs ([parts], hence [server_name] and [media_id]) *)
+  (forall i, validate_mxc s = Ok i ->
+     exists sn m, mxc_parts s = Ok (sn, m) /\ s = mxc_prefix ++ sn ++ 47 :: m /\
+                  validate_server_name sn = Ok tt).
+Proof.
+  intros s Hu. repeat split.
+  - intros H. destruct (user_accessors 64 s lt64 ne64 Hu H) as (l & sn & E1 & E2 & E3 & E4).
+    exists l, sn. repeat split; auto.
+    + destruct (user_historical_flags s Hu H) as (l' & El & Ef & _). congruence.
+    + apply lfc_classify.
+  - intros H. exact (user_accessors 35 s lt35 ne35 Hu H).
+  - intros H. exact (event_accessors s Hu H).
+  - exact (roa_accessor s Hu).
+  - intros H. exact (server_accessors s H).
+  - intros k i H. exact (key_accessors_thm k s i Hu H).
+  - intros i H. exact (mxc_accessors s i Hu H).
+Qed.
+
+Theorem recognisers_decide_grammar_all :
+  (forall s, ipv4_b s = true <-> IPv4 s) /\
+  (forall s, ipv6_b s = true <-> IPv6 s) /\
+  (forall b s, hostname_b b s = true <-> Hostname b s) /\
+  (forall b s, server_name_b b s = true <-> ServerName b s) /\
+  (forall s, port_above_b s = true <-> PortAbove65535 s) /\
+  (forall b s, user_id_b b s = true <-> UserId b s) /\
+  (forall b s, room_alias_id_b b s = true <-> RoomAliasId b s) /\
+  (forall s, room_id_b s = true <-> RoomId s) /\
+  (forall b s, event_id_b b s = true <-> EventId b s) /\
+  (forall b s, user_id_strict_b b s = true <-> UserIdStrict b s) /\
+  (forall k s, key_id_b k s = true <-> KeyId k s) /\
+  (forall b s, mxc_uri_b b s = true <-> MxcUri b s) /\
+  (forall s h po, server_parts_b s h po = true <-> server_parts_ok s h po).
+Proof.
+  repeat split; try apply ipv4_b_iff; try apply ipv6_b_iff; try apply hostname_b_iff;
+    try apply server_name_b_iff; try apply port_above_b_iff; try apply local_server_id_b_iff;
+    try apply room_id_b_iff; try apply event_id_b_iff; try apply user_id_strict_b_iff;
+    try apply key_id_b_iff; try apply mxc_uri_b_iff; try apply server_parts_b_iff.
+Qed.
+
+Theorem std_ip_parsers_meet_rfc3986_all :
+  (forall s, ipv4_from_str s = true <-> IPv4 s) /\ (forall s, ipv6_from_str s = true <-> IPv6 s).
+Proof. split; [exact ipv4_from_str_iff|exact ipv6_from_str_iff]. Qed.
+
+Theorem legacy_code_refuted_all :
+  (let w := mxc_prefix ++ pad 97 250 ++ s!"/x" in
+   valid_utf8 w = true /\ Legacy.validate_mxc w = Panic 3 /\ validate_mxc w = Ok 256) /\
+  (let w := mxc_prefix ++ pad 97 251 ++ s!"/x" in
+   valid_utf8 w = true /\ Legacy.validate_mxc w = Ok 1 /\ is_panic (Legacy.mxc_parts w) = true /\
+   mxc_parts w = Ok (pad 97 251, s!"x")) /\
+  (let w := 97 :: 195 :: 169 :: pad 97 254 ++ s!":x" in
+   valid_utf8 w = true /\ Legacy.validate_key_id KAny w = Panic 1 /\ validate_key_id KAny w = Ok 257) /\
+  (let w := pad 97 256 ++ s!":x" in
+   Legacy.validate_key_id KAny w = Err E_MissingColon /\ validate_key_id KAny w = Ok 256) /\
+  (Legacy.validate_server_name s!":80" = Ok tt /\ server_name_b false s!":80" = false /\
+   Legacy.validate_server_name s!"example.com:+80" = Ok tt /\ server_name_b false s!"example.com:+80" = false /\
+   Legacy.validate_server_name s!"example.com:000080" = Ok tt /\ server_name_b false s!"example.com:000080" = false /\
+   validate_server_name s!":80" = Err E_InvalidServerName /\
+   validate_server_name s!"example.com:+80" = Err E_InvalidServerName /\
+   validate_server_name s!"example.com:000080" = Err E_InvalidServerName) /\
+  (let w := 36 :: pad 97 300 in
+   Legacy.validate_event_id w = Ok tt /\ event_id_b true w = false /\
+   Legacy.validate_event_id [36; 0] = Ok tt /\ event_id_b true [36; 0] = false) /\
+  (let built := 64 :: pad 120 300 ++ s!":a.b" in
+   Legacy.parse_with_server_name (pad 120 300) s!"a.b" = Ok built /\
+   validate_user_id built = Err E_MaximumLengthExceeded /\
+   parse_with_server_name (pad 120 300) s!"a.b" = Err E_MaximumLengthExceeded).
+Proof.
+  exact (conj legacy_mxc_panics (conj legacy_mxc_parts_panics (conj legacy_key_id_panics
+        (conj legacy_key_id_missing_colon (conj legacy_server_name_unsound
+        (conj legacy_event_id_unsound legacy_parse_with_server_name_unaccepted)))))).
+Qed.
+
+Theorem open_finding_witnesses_all :
+  (let w := s!"example.com:65536" in
+   ServerName true w /\ PortAbove65535 w /\ validate_server_name w = Err E_InvalidServerName) /\
+  (let w := pad 97 256 in validate_server_name w = Ok tt /\ DnsLonger255 w /\ ~ ServerName true w) /\
+  (validate_key_id KAny (key_from_parts [] s!"DEVICE") = Err E_MissingColon /\
+   validate_key_id KSigningVersion (key_from_parts s!"a:b" s!"1") = Err E_InvalidCharacters) /\
+  (let sn := pad 97 242 in
+   validate_server_name sn = Ok tt /\
+   validate_user_id (id_new 64 (pad 97 12) sn) = Err E_MaximumLengthExceeded).
+Proof.
+  exact (conj finding_port_above_65535 (conj finding_dns_longer_255
+        (conj finding_from_parts_algorithm finding_new_long_server_name))).
+Qed.
